@@ -690,3 +690,13 @@ package objects
 //@   props C03
 //@   trusted "frame only: aggregates into the application's TrackedResource objects (used/placeholder/preempted resource-seconds), which share no resource object with the ledgers"
 //@   assigns nothing
+
+// a resize of an ask/allocation moves exactly one ledger by the difference: pending for an outstanding ask, the total
+// the allocation is booked into (placeholder or real) for a bound one, and the queue chain / user by the same delta
+//@ func (sa *Application) UpdateAllocationResources(alloc *Allocation, isQuotaPreemptionEnabled bool) (err error)
+//@   props C03
+//@   mode nopanic=off
+//@   ensures[boundreal] err == nil && old(sa.requests[alloc.allocationKey]) != nil && old(sa.requests[alloc.allocationKey].allocated) && !old(sa.requests[alloc.allocationKey].placeholder) ==> (forall t Key :: rv(sa.allocatedResource, t) == clamp64(old(rv(sa.allocatedResource, t)) + clamp64(rv(alloc.allocatedResource, t) - old(rv(sa.requests[alloc.allocationKey].allocatedResource, t)))))
+//@   ensures[boundph] err == nil && old(sa.requests[alloc.allocationKey]) != nil && old(sa.requests[alloc.allocationKey].allocated) && old(sa.requests[alloc.allocationKey].placeholder) ==> (forall t Key :: rv(sa.allocatedPlaceholder, t) == clamp64(old(rv(sa.allocatedPlaceholder, t)) + clamp64(rv(alloc.allocatedResource, t) - old(rv(sa.requests[alloc.allocationKey].allocatedResource, t))))) && (forall t Key :: rv(sa.allocatedResource, t) == old(rv(sa.allocatedResource, t)))
+//@   ensures[outstanding] err == nil && old(sa.requests[alloc.allocationKey]) != nil && !old(sa.requests[alloc.allocationKey].allocated) ==> (forall t Key :: rv(sa.pending, t) == clamp64(old(rv(sa.pending, t)) + clamp64(rv(alloc.allocatedResource, t) - old(rv(sa.requests[alloc.allocationKey].allocatedResource, t)))))
+//@   ensures[refused] err != nil ==> sa.pending == old(sa.pending) && sa.allocatedResource == old(sa.allocatedResource) && sa.allocatedPlaceholder == old(sa.allocatedPlaceholder)
